@@ -83,3 +83,43 @@ def if_chain(fn_node, discr: str):
 def equal(a, b) -> bool:
     d = sympy.simplify(sympy.together(a - b))
     return d == 0
+
+
+class Undecidable(Exception):
+    pass
+
+
+def eval_pred(e, env):
+    """evaluate a side-effect free predicate over a finite environment of python values (names -> values);
+    supports comparisons (incl. in / not in / is / is not), and/or/not, constants, unary minus, tuples and sets"""
+    if isinstance(e, ast.Constant):
+        return e.value
+    if isinstance(e, ast.Name):
+        if e.id in env:
+            return env[e.id]
+        raise Undecidable(f'free name {e.id}')
+    if isinstance(e, ast.UnaryOp):
+        v = eval_pred(e.operand, env)
+        if isinstance(e.op, ast.Not):
+            return not v
+        if isinstance(e.op, ast.USub):
+            return -v
+    if isinstance(e, ast.BoolOp):
+        if isinstance(e.op, ast.And):
+            return all(eval_pred(v, env) for v in e.values)
+        return any(eval_pred(v, env) for v in e.values)
+    if isinstance(e, (ast.Tuple, ast.List, ast.Set)):
+        return type({ast.Tuple: (), ast.List: [], ast.Set: set()}[type(e)])(eval_pred(x, env) for x in e.elts)
+    if isinstance(e, ast.Compare):
+        left = eval_pred(e.left, env)
+        for op, c in zip(e.ops, e.comparators):
+            right = eval_pred(c, env)
+            r = {ast.Eq: lambda a, b: a == b, ast.NotEq: lambda a, b: a != b, ast.Lt: lambda a, b: a < b,
+                 ast.LtE: lambda a, b: a <= b, ast.Gt: lambda a, b: a > b, ast.GtE: lambda a, b: a >= b,
+                 ast.In: lambda a, b: a in b, ast.NotIn: lambda a, b: a not in b, ast.Is: lambda a, b: a is b,
+                 ast.IsNot: lambda a, b: a is not b}[type(op)](left, right)
+            if not r:
+                return False
+            left = right
+        return True
+    raise Undecidable(ast.dump(e)[:80])
